@@ -153,6 +153,9 @@ def run(c):
     for runner in ("ptrace", "ns", "container", "container_after"):
         for n in exits:
             add(runner, ["exit", str(n)], table_exit(n), ("exit", n))
+        # what children do is irrelevant: a child dies of a signal / exits non-zero, the main task exits n
+        for s, n in ((11, 0), (9, 0), (31, 7), (6, 3), (-5, 0), (15, 0)):   # not 24/25: a limit signal of any task ends a ptrace run (by design, C08)
+            add(runner, ["childsig", str(s), str(n)], table_exit(n), ("exit", n), _child=s)
         if runner == "ns":
             # main task is pid 1 of its namespace: self-sent signals with default action are ignored by the kernel
             add(runner, ["sleep", "5000"], table_sig(9), ("sig", 9), kill=9, kill_after_ms=30)
@@ -173,14 +176,14 @@ def run(c):
             raise RuntimeError("harness: " + o["harness_err"])
         what, v = x["_what"]
         got = (o["status"], o["exit"])
-        c.count(("run", x["runner"], what, v, x.get("kill")), klass="run:%s:%s" % (x["runner"], what))
+        c.count(("run", x["runner"], what, v, x.get("kill"), x.get("_child")), klass="run:%s:%s" % (x["runner"], what))
         items.append("(%d, %s, %s, %s, %s)" % (rid[x["runner"]], coq_bool(what == "exit"), coq_bool("kill" not in x), coq_N(v),
                                                coq_N(code(o["status"], o["exit"], o["err"]))))
         # the table defines the exit value for Normal / Nonzero (the code) and Signalled (the signal number) only
         exp = x["_expect"]
         bad = got[0] != exp[0] or (exp[0] in (1, 6, 7) and got[1] != exp[1])
         if bad or o["err"]:
-            c.finding_or_violation({"kind": "table", "runner": x["runner"], "program": "%s %d" % (what, v),
+            c.finding_or_violation({"kind": "table", "runner": x["runner"], "program": " ".join(x["args"]),
                                     "signal_name": SIGNAME.get(v) if what == "sig" else None,
                                     "self_sent": "kill" not in x and x["args"][0] == "sig",
                                     "expected": list(x["_expect"]), "observed": list(got)},
